@@ -17,7 +17,7 @@ LEVEL_TEXT = ("Part (a): byte strings the gate must reject are sent in batches t
               "warning each. Random content is sampled.")
 RULE = ("case = batch of datagram specs (kind, length, prefix, pattern seed | capture index and cut | hex) or (base frame, model code); "
         "non-trivial (a) = length within +-3 of an accepted length or correct magic, (b) = all; distinct by (kind, length, prefix, code)."
-        " Also enumerated: every single-byte extension (256 values) of a frame of each accepted length; junk of every length 0..400 that carries the magic, a header length field equal to its real length, a known model code and (every other one) a valid packet signature; all 'neighbour' model codes (byte-swapped, +-1, single-bit flips, single-byte variants of the nine known codes); junk before and after a silence of 61 s .. 25 h of event-loop time (harness-owned loop clock); 70 000 (thorough 300 000) rejected datagrams through one bridge (soak).")
+        " Also enumerated: every single-byte extension (256 values) of a frame of each accepted length; junk of every length 0..400 that carries the magic, a header length field equal to its real length, a known model code and (every other one) a valid packet signature; all 'neighbour' model codes (byte-swapped, +-1, single-bit flips, single-byte variants of the nine known codes); junk before and after a silence of 61 s .. 25 h of event-loop time (harness-owned loop clock); 70 000 (thorough 300 000) rejected datagrams through one bridge (soak); unknown-model frames and junk read by the bridge while an API client of either type in the same loop is leaving its session, after state replies of every kind were decoded in the process (beside-an-api-client).")
 ASSUMPTIONS = [
     "a warning counts when it is a Python warning or an aioswitcher log record >= WARNING whose text contains 'unknown' (case-insensitive)",
     "frames that pass the gate with a known model code but undecodable fields are outside this statement (C07 covers their isolation)",
@@ -246,6 +246,83 @@ def body_unknown(rep, case, sub="unknown-model"):
     raise Violation("C06/unknown-model/only-in-batch", case, {"unknown_warnings": len(datagrams)}, obs)
 
 
+async def beside_api(case):
+    """The bridge is not alone in its event loop: an API client of each type talks to a (fake) device there too.  Unknown-model
+    frames and junk are sent while such a client is leaving its session (frame queued, then `disconnect()` awaited) and after
+    the library decoded state replies of every kind in this process."""
+    from ..fake import env, ops
+    from ..ref import replies
+    from . import c03
+    caps = refb.captures()
+    dev = await env.device()
+    rig = udptx.Rig(1)
+    await rig.start()
+    clients = []
+    try:
+        port = rig.ports[0]
+        c1 = ops.Client(dev, 1, "a1b2c3", "18")
+        c2 = ops.Client(dev, 2, "0d0e0f", "18")
+        clients = [c1, c2]
+
+        def unknown_count():
+            return sum(1 for _, m in rig.warnings_so_far() if "unknown" in m.lower()) + sum(1 for _, m in rig.log_records if "unknown" in m.lower())
+        steps = []
+        for i, spec in enumerate(case["batch"]):
+            cl = clients[i % 2]
+            kind = ("get_state", "get_shutter_state", "get_breeze_state")[i % 3] if cl is c2 or i % 3 == 0 else "get_state"
+            kind = kind if ops.api_type(kind) == cl.typ else ("get_state" if cl.typ == 1 else "get_shutter_state")
+            await cl.connect()
+            cl.conn.script.extend(ops.good_script(kind, c03.CANON_ARGS[kind], "0a0b0c0d", salt=1 + i))
+            await cl.call(kind, c03.CANON_ARGS[kind])
+            d = build(spec, caps)
+            before = (unknown_count(), len(rig.callbacks), len(rig.loop_errors), len(rig.warnings_so_far()) + len(rig.log_records))
+            rig.tx.sendto(d, ("127.0.0.1", port))           # queued for the bridge ...
+            await cl.api.disconnect()                        # ... and read while the client is leaving its session
+            dead = await rig.barrier()
+            after = (unknown_count(), len(rig.callbacks), len(rig.loop_errors), len(rig.warnings_so_far()) + len(rig.log_records))
+            steps.append({"spec": spec, "gate": refb.gate(d), "dead": dead, "unknown": after[0] - before[0], "callbacks": after[1] - before[1],
+                          "loop_errors": rig.loop_errors[before[2]:][:2], "noise": after[3] - before[3]})
+            if dead:
+                break
+        return steps
+    finally:
+        for cl in clients:
+            await cl.close()
+        await rig.stop()
+
+
+def body_beside_api(rep, case):
+    steps = net.run(beside_api(case), timeout=300)
+    for st_ in steps:
+        spec = st_["spec"]
+        rep.tick("beside-an-api-client", key=(spec.get("kind"), spec.get("code"), spec.get("len"), spec.get("seed")), nontrivial=True,
+                 sample={"batch": [spec]}, labels=("unknown-model" if st_["gate"] else "junk",))
+        one = {"batch": [spec], "beside_api": True}
+        if st_["dead"]:
+            raise Violation("C06/beside-api/bridge-stops-delivering", one, "sentinel delivered", st_)
+        if st_["callbacks"] or st_["loop_errors"]:
+            raise Violation("C06/beside-api/" + ("device-delivered" if st_["callbacks"] else "exception"), one,
+                            "no device, no exception", st_)
+        if st_["gate"]:
+            if st_["unknown"] < 1:
+                raise Violation("C06/beside-api/unknown-model/no-warning", one, "an 'unknown device' warning", st_)
+        elif st_["noise"]:
+            raise Violation("C06/beside-api/reject/warning", one, "ignored silently", st_)
+
+
+def cases_beside_api():
+    out = []
+    codes = ["0000", "0001", "0100", "0002", "0200", "0003", "0004", "0005", "0101", "ffff", "0f0f", "0b0b", "010b", "a801", "0c03"]
+    for base in range(4):
+        batch = []
+        for i, c in enumerate(codes):
+            batch.append({"kind": "unknown", "base": base, "code": c})
+            if i % 3 == 0:
+                batch.append({"kind": "len", "len": [40, 165, 0, 168][i % 4], "seed": i, "prefix": "00ff"})
+        out.append({"batch": [b for b in batch if b["kind"] != "unknown" or b["code"] not in KNOWN]})
+    return out
+
+
 # -- case generation -----------------------------------------------------------------------------------
 
 def cases_lengths():
@@ -334,6 +411,7 @@ def subchecks(tier):
     if big:
         subs.append(Sub("unknown-model-all-codes", lambda rep, case: body_unknown(rep, case, "unknown-model-all-codes"),
                         cases=cases_unknown_all, shards=16, exhaustive=True))
+    subs.append(Sub("beside-an-api-client", body_beside_api, cases=cases_beside_api, shards=4, exhaustive=False))
     subs.append(Sub("after-silence", body_silence, cases=cases_silence, shards=2, exhaustive=False))
     subs.append(Sub("soak", body_soak, cases=lambda: [{"n": 300_000 if big else 70_000}], shards=1, exhaustive=False))
     subs.append(Sub("unknown-model-neighbours", lambda rep, case: body_unknown(rep, case, "unknown-model-neighbours"),
